@@ -6,7 +6,7 @@
    Case format (one operation per line, strings hex-encoded with a leading 'x', NULL = '-'):
      H id | new o | kv k n (key i|o val)* | add o ty chr name var hasarg kv init | sub o s prefix
      parse o argc args.. | load o f | loadargs o f | save o f | file f bytes | errno n
-     seti v z | setd v bits | sets v s | destroy o | summary o | strtol s | dirty c | quiet b | E
+     seti v z | setd v bits | sets v s | assign v (i<int>|z<size>|d<bits>|s<text>) | destroy o | summary o | strtol s | dirty c | quiet b | E
    iniparser's dictionary directly (iniparser/dictionary.h is part of libsc):
      dnew size | dset key val | dget key | dunset key | dall      (val '-' = NULL; dget prints '!' for "not found")
    every d-line prints d->n and d->size; dall prints every slot in use as index:key:value.
@@ -284,6 +284,15 @@ int main (int argc, char **argv)
     else if (!strcmp (op, "seti")) { int v = atoi (tok[1]); if (kind[v] == 'z') zvar[v] = (size_t) strtoull (tok[2], NULL, 16); else ivar[v] = (int) parsez (tok[2]); }
     else if (!strcmp (op, "setd")) { uint64_t b = strtoull (tok[2], NULL, 16); memcpy (&dvar[atoi (tok[1])], &b, 8); }
     else if (!strcmp (op, "sets")) svar[atoi (tok[1])] = keepit (unhex (tok[2], NULL));
+    else if (!strcmp (op, "assign")) {
+      /* the application assigns its own variable between two calls of the library: assign v i<int> | z<size> | d<bits> | s<text> */
+      int v = atoi (tok[1]);
+      const char *t = tok[2];
+      if (t[0] == 's') svar[v] = keepit (unhex (t + 1, NULL));
+      else if (t[0] == 'd') { uint64_t b = strtoull (t + 1, NULL, 16); memcpy (&dvar[v], &b, 8); }
+      else if (t[0] == 'z' || kind[v] == 'z') zvar[v] = (size_t) strtoull (t + 1, NULL, 16);
+      else ivar[v] = (int) parsez (t + 1);
+    }
     else if (!strcmp (op, "destroy")) { o = atoi (tok[1]); sc_options_destroy (obj[o]); obj[o] = NULL; }
     else if (!strcmp (op, "summary")) {
       o = atoi (tok[1]);
